@@ -216,7 +216,19 @@ func ZZ_C03_assign_keeps_existing() {
 	zz.FixedMapOrder(false)
 	_ = assignIPFromLocalPool(logr.Discard(), pods, ipv4Map, ipv6Map, false)
 	for _, a := range all {
-		_, live := pods[a.owner]
-		zz.Assert(zz.Implies(live, a.ip.PodID == a.owner), "an address bound to a pod that still exists is neither unbound nor handed to another pod by the assignment pass")
+		pr, live := pods[a.owner]
+		if !live {
+			continue
+		}
+		// the recorded finding (known_findings.json) is about a pod that does not report the
+		// address yet; an address the pod *reports as its own* is a separate obligation, so
+		// that the finding cannot hide it
+		if (a.v6 && pr.IPv6 == a.ip.IP) || (!a.v6 && pr.IPv4 == a.ip.IP) {
+			zz.Assert(a.ip.PodID == a.owner, "an address that an existing pod reports as its own is neither unbound nor handed to another pod by the assignment pass")
+		} else if a.v6 {
+			zz.Assert(a.ip.PodID == a.owner, "an IPv6 address bound to a pod that still exists is neither unbound nor handed to another pod by the assignment pass")
+		} else {
+			zz.Assert(a.ip.PodID == a.owner, "an address bound to a pod that still exists is neither unbound nor handed to another pod by the assignment pass")
+		}
 	}
 }
